@@ -462,6 +462,7 @@ class Data(object):
                 return self._get_score_cache[input_index][field]
 
             found_obs = False
+            loaded = dict()
             for i in range(num_inputs):
                 input = self._inputs[i]
                 all_fields = input.get_fields()
@@ -483,10 +484,15 @@ class Data(object):
                     temp = temp[:, Ileadtimes, :]
                     temp = temp[:, :, Ilocations]
 
-                    self._get_score_cache[i][field] = temp
+                    loaded[i] = temp
                     found_obs = True
             if not found_obs:
                 verif.util.error("No files have observations")
+
+            # Only cache once all inputs have been loaded, so that a failure
+            # part way does not leave some inputs cached without the others
+            for i in loaded:
+                self._get_score_cache[i][field] = loaded[i]
 
             for i in range(num_inputs):
                 if field not in self._get_score_cache[i]:
@@ -503,6 +509,7 @@ class Data(object):
             if field == verif.field.Fcst():
                 field = self._fcst_field
 
+            loaded = dict()
             for i in range(num_inputs):
                 if field not in self._get_score_cache[i]:
                     input = self._inputs[i]
@@ -582,7 +589,12 @@ class Data(object):
                     temp = temp[:, Ileadtimes, :]
                     temp = temp[:, :, Ilocations]
 
-                    self._get_score_cache[i][field] = temp
+                    loaded[i] = temp
+
+            # Only cache once all inputs have been loaded, so that a failure
+            # part way does not leave some inputs cached without the others
+            for i in loaded:
+                self._get_score_cache[i][field] = loaded[i]
 
         """
         Remove missing. If one configuration has a missing value, set all
